@@ -488,7 +488,11 @@ func setMapField(field reflect.Value, fieldType reflect.Type, isPtr bool, mapArr
 		if err := setFieldFromArrow(k, fieldType.Key(), keys, int(start)+j, tagInfo{}); err != nil {
 			return fmt.Errorf("map key [%d]: %w", j, err)
 		}
-		if err := setFieldFromArrow(v, fieldType.Elem(), items, int(start)+j, tagInfo{}); err != nil {
+		if items.IsNull(int(start) + j) {
+			// Leave the value as its zero value (nil for pointer item types),
+			// as setListField does for a null element: the bytes under a
+			// null slot are undefined and must not be bound.
+		} else if err := setFieldFromArrow(v, fieldType.Elem(), items, int(start)+j, tagInfo{}); err != nil {
 			return fmt.Errorf("map value [%d]: %w", j, err)
 		}
 		m.SetMapIndex(k, v)
